@@ -194,7 +194,7 @@ fn c05_roundtrip_matrix() {
     roundtrip_matrix(false, false)
 }
 
-//@ c05_roundtrip_matrix_user_mapper {"tier":"thorough","desc":"as c05_roundtrip_matrix with a user lexicon and a stored id mapper (Option fields present)","bounds":"2 system words + 1 user word, 2x2 matrix, mapper vectors of length 2","symbolic":"all parameters, matrix cells, character infos, mapper vectors","functions":["Dictionary::write","Dictionary::read","ConnIdMapper codec","Option<Lexicon> codec"],"fs":5000,"unwind":24,"unwindset":["memcmp:24","roundtrip_matrix:1030","ElemWriter:200"],"timeout":3000,"mem_gb":24,"stubs":["alloc::fmt::format","unty::type_equal"]}
+//@ c05_roundtrip_matrix_user_mapper {"desc":"as c05_roundtrip_matrix with a user lexicon and a stored id mapper (Option fields present)","bounds":"2 system words + 1 user word, 2x2 matrix, mapper vectors of length 2","symbolic":"all parameters, matrix cells, character infos, mapper vectors","functions":["Dictionary::write","Dictionary::read","ConnIdMapper codec","Option<Lexicon> codec"],"fs":5000,"unwind":24,"unwindset":["memcmp:24","roundtrip_matrix:1030","ElemWriter:200"],"timeout":3000,"mem_gb":24,"stubs":["alloc::fmt::format","unty::type_equal"]}
 #[cfg(kani)]
 #[kani::proof]
 #[kani::stub(alloc::fmt::format, crate::c06::stub_format)]
